@@ -1,0 +1,10 @@
+//go:build verif
+
+package gc
+
+// VerifRunOnce runs one garbage-collection pass synchronously. It exists only
+// in builds with the "verif" tag and is used by the external verification
+// harness to invoke GC at chosen points of a generated history.
+func VerifRunOnce(collector PartGarbageCollector) error {
+	return collector.(*partGC).runGC()
+}
